@@ -92,6 +92,16 @@ def monitor(case, obs):
     def closed_after(i):
         lv = x.x[i][1].get("levels")
         return lv is not None and any(c.get("levels") is not None and not set(lv) <= set(c["levels"]) for e, c in x.x[i:])
+    if not case.get("screens"):
+        # programs without screens: the level structure is reconstructed from the API calls alone (execute_new_loop opens a level, a close_loop that returned
+        # closed the innermost one), not read from the implementation: the exception signal of a raise belongs to the level that is the innermost one then
+        stacks = []; cur = [0]; nxt = 1
+        for i, ev, ctx in x.events():
+            if ev[0] == "api" and ev[1] == "new_loop": cur = cur + [nxt]; nxt += 1
+            if ev[0] == "api<" and ev[1] == "close_loop" and len(cur) > 1: cur = cur[:-1]
+            stacks.append(cur)
+        def closed_after(i):
+            return any(stacks[i][-1] not in st for st in stacks[i:])
     raise_idx = [i for i in raise_idx if not closed_after(i)]        # blocked inside a nested loop: an exception signal may be held in an enclosing level (C03)
     if raise_idx and case.get("exc_handler") and obs["outcome"][0] == "blocked" and not any(ev[0] == "api" and ev[1] in ("force_quit", "raise_exit") for i, ev, ctx in x.events()):
         n_handled = sum(1 for i, ev, ctx in x.events() if ev[0] == "EXC-handled")
